@@ -36,7 +36,7 @@ HARNESSES = {
  "k6_validate_num_of_signers": ("validate_num_of_signers refuses iff t<2 or n<2 or t>n", "frost_core::keys::validate_num_of_signers", "all 2^32 (min,max) pairs"),
  "k7_keypackage": ("KeyPackage: zeroize() and drop_in_place leave the signing share zero in the slot", "KeyPackage Zeroize/ZeroizeOnDrop", "all secret values (toy field)"),
  "k7_signing_share_and_key": ("SigningShare::zeroize; SigningKey wiped in place on drop", "SigningShare DefaultIsZeroes, SigningKey::drop", "all secret values"),
- "k7_secret_share": ("SecretShare::zeroize wipes the secret", "SecretShare Zeroize", "all secret values"),
+ "k7_secret_share": ("SecretShare: zeroize() wipes the secret; drop wipes it in place", "SecretShare Zeroize/ZeroizeOnDrop", "all secret values"),
  "k7_signing_nonces": ("SigningNonces: zeroize() and drop wipe both nonces in place", "SigningNonces Zeroize/ZeroizeOnDrop, Nonce::zeroize", "all nonce values"),
  "k7_dkg_round1_secret": ("dkg round1 SecretPackage: zeroize() leaves no coefficient; drop overwrites every coefficient (observed through Field::zero())", "dkg::round1::SecretPackage Zeroize/ZeroizeOnDrop, SerializableScalar::zeroize", "2 coefficients, all values"),
  "k7_dkg_round2": ("dkg round2 SecretPackage and Package: zeroize()/drop wipe the share", "dkg::round2::{SecretPackage,Package} Zeroize/ZeroizeOnDrop", "all secret values"),
